@@ -18,7 +18,7 @@ AX = ["i", "j", "k", "l"]
 
 # ------------------------------------------------------------------ generation
 def gen_case(rng, max_funcs=4, allow_internal=True, allow_reduce=True, allow_nomapspec=True,
-             allow_tuple=True, max_roots=3, allow_autogen=False, sizes=None, allow_bound=False, allow_renames=False, allow_int_arrays=False):
+             allow_tuple=True, max_roots=3, allow_autogen=False, sizes=None, allow_bound=False, allow_renames=False, allow_int_arrays=False, allow_picker=False):
     sizes = sizes or {a: rng.randint(1, 3) for a in AX}
     arrays = {}  # name -> tuple of axis names (fixed by producer)
     roots = {}
@@ -103,6 +103,11 @@ def gen_case(rng, max_funcs=4, allow_internal=True, allow_reduce=True, allow_nom
         for f in funcs:
             if rng.random() < 0.5:
                 f["iparams"] = [f"a{k}" for k in range(len(f["params"]))]
+    if allow_picker:
+        # a multi-output function that returns {output name: value} and carries a custom output_picker
+        for f in funcs:
+            if len(f["outs"]) > 1 and rng.random() < 0.5:
+                f["picker"] = True
     if allow_bound:
         # bound values on parameters that are delivered whole (a bound parameter may not appear in a MapSpec)
         for f in funcs:
@@ -222,8 +227,11 @@ def build_funcs(case, log=None, fault=None, tag=None, cache=None, extra=None):
         iparams = f.get("iparams") or f["params"]
         fn = probes.make_probe(f["name"], iparams, len(f["outs"]), log=log,
                                internal_shape=f["internal_shape"], ret_list=f["ret_list"],
-                               fault=(fault or {}).get(f["name"]) if fault else None, tag=tag)
+                               fault=(fault or {}).get(f["name"]) if fault else None, tag=tag,
+                               as_dict=(f["outs"] if f.get("picker") else None))
         kw = {}
+        if f.get("picker"):
+            kw["output_picker"] = probes.pick_member
         if f["internal_shape"] and f.get("ishape_via") == "both":
             # declared on the PipeFunc with ANOTHER shape; the value passed to map(internal_shapes=...) is documented to win
             kw["internal_shape"] = tuple((d - 1 if d >= 2 else d + 1) for d in f["internal_shape"])
@@ -367,6 +375,8 @@ def expected_shape(case, name):
 def classes(case):
     cl = set()
     for f in case["funcs"]:
+        if f.get("picker"):
+            cl.add("custom_output_picker" + ("" if f["mapspec"] else "_nomapspec"))
         if f["mapspec"] is None:
             cl.add("autogen_mapspec" if f.get("autogen") else "nomapspec")
             continue
@@ -438,7 +448,8 @@ def signature(case):
 
 
 def describe(case):
-    return {"mapspecs": [f["mapspec"] or f"{f['name']}({','.join(f['params'])}) [no mapspec]" for f in case["funcs"]],
+    return {"mapspecs": [(f["mapspec"] or f"{f['name']}({','.join(f['params'])}) [no mapspec]") + (" [returns dict, custom output_picker]" if f.get("picker") else "")
+                         for f in case["funcs"]],
             "internal_shapes": {f["outs"][0]: f["internal_shape"] for f in case["funcs"] if f["internal_shape"]},
             "inputs": {n: {"shape": [case["sizes"][a] for a in r["axes"]], "kind": r["kind"]}
                        for n, r in case["roots"].items()}}
